@@ -66,7 +66,7 @@ fn gen_paged_x(rng: &mut Rng, n: usize, out: &mut Vec<String>, early: bool) {
             its.push(format!("d{}.{}.{}", if last { *rng.pick(&[0u32, 0, 4]) } else { 0 }, cookie, rng.below(3)));
             pages.push(its.join(","));
         }
-        let uc = format!("u{}{}", if i % 17 == 16 { "P" } else { "" }, rng.below(3));
+        let uc = format!("u{}{}{}", if i % 17 == 16 { "P" } else { "" }, if !early && i % 3 == 1 { "E" } else { "" }, rng.below(3));
         if early && i % 17 != 16 {
             // the caller finishes early, after k items; half of the time the server has not sent anything beyond those k items
             // (the rest of that page, its final message included, is withheld), so that the page's search is still in flight
@@ -174,7 +174,7 @@ async fn run_paged(args: &[String]) -> (String, Option<String>) {
     let stop: Option<usize> = args.get(3).and_then(|x| x.parse().ok());
     let size: i32 = args[0].parse().unwrap();
     let uc = &args[1][1..];
-    let with_paged = uc.contains('P'); let nother: usize = uc.replace('P', "").parse().unwrap();
+    let with_paged = uc.contains('P'); let chained = uc.contains('E'); let nother: usize = uc.replace('P', "").replace('E', "").parse().unwrap();
     let mut user: Vec<RawControl> = vec![];
     if with_paged { user.push(ldap3::controls::PagedResults { size: 5, cookie: vec![] }.into()); }
     for k in 0..nother { user.push(RawControl { ctype: format!("1.2.840.{}", k), crit: false, val: None }); }
@@ -222,7 +222,10 @@ async fn run_paged(args: &[String]) -> (String, Option<String>) {
     if !user.is_empty() { l.with_controls(user); }
     // odd page sizes: non-default search options and a (generous) timeout, which every follow-up request must repeat
     if size % 2 == 1 { l.with_search_options(ldap3::SearchOptions::new().deref(ldap3::DerefAliases::Always).typesonly(true).timelimit(50).sizelimit(100)); l.with_timeout(std::time::Duration::from_secs(30)); }
-    let started = l.streaming_search_with(PagedResults::new(size), "dc=x", Scope::Subtree, "(a=b)", vec!["cn"]).await;
+    // "E": the adapter chain [EntriesOnly, PagedResults]
+    let started = if chained { let ads: Vec<Box<dyn ldap3::adapters::Adapter<_, _>>> = vec![Box::new(EntriesOnly::new()), Box::new(PagedResults::new(size))];
+            l.streaming_search_with(ads, "dc=x", Scope::Subtree, "(a=b)", vec!["cn"]).await }
+        else { l.streaming_search_with(PagedResults::new(size), "dc=x", Scope::Subtree, "(a=b)", vec!["cn"]).await };
     let mut st = match started { Ok(s) => s, Err(ldap3::LdapError::AdapterInit(_)) => return ("rejected".into(), if with_paged { None } else { Some("a search without a caller paging control was rejected".into()) }), Err(e) => return (format!("starterr:{}", err_class(&e)), None) };
     let mut items: Vec<String> = vec![]; let mut end = "active";
     for _ in 0..stop.unwrap_or(10000) { match st.next().await { Ok(Some(re)) => { let s = show_entry(&re); items.push(if s.starts_with('r') { format!("r{}", String::from_utf8_lossy(&unhex(&s[1..])).trim_start_matches("ldap://t").to_string()) } else { s }); } Ok(None) => { end = "done"; break; } Err(_) => { end = "error"; break; } } }
@@ -233,13 +236,18 @@ async fn run_paged(args: &[String]) -> (String, Option<String>) {
     let others = res.ctrls.iter().filter(|c| c.1.ctype != "1.2.840.113556.1.4.319").count();
     let left = { let m = table.lock().unwrap(); let g = gauges.lock().unwrap(); let mut ids: Vec<i32> = m.1.iter().copied().collect(); ids.sort();
         format!("{}/{}/{}", ids.iter().map(|x| x.to_string()).collect::<Vec<_>>().join(","), g.0.iter().map(|x| x.to_string()).collect::<Vec<_>>().join(","), g.1.iter().map(|x| x.to_string()).collect::<Vec<_>>().join(",")) };
-    let out = format!("items=[{}] end={} rc={} paged_in_final={} others={} wire=[{}] left={}", items.join(","), if end == "done" && st_end == StreamState::Done { "done" } else if end == "error" { "error" } else { end }, res.rc, if paged_in_final { 1 } else { 0 }, others, log.lock().unwrap().join(";"), left);
+    let refs_out = if chained { format!(" refs=[{}]", res.refs.iter().map(|u| u.trim_start_matches("ldap://t").to_string()).collect::<Vec<_>>().join(",")) } else { String::new() };
+    let out = format!("items=[{}] end={} rc={} paged_in_final={} others={} wire=[{}] left={}{}", items.join(","), if end == "done" && st_end == StreamState::Done { "done" } else if end == "error" { "error" } else { end }, res.rc, if paged_in_final { 1 } else { 0 }, others, log.lock().unwrap().join(";"), left, refs_out);
     // oracle: the property itself, from the script
     let mut oracle = None;
     if with_paged { oracle = Some("a caller-supplied paging control was not rejected".into()); }
     else {
         let mut want_items: Vec<String> = pages.iter().flat_map(|pg| pg.iter().filter(|x| !x.starts_with('d') && *x != "w").cloned()).collect();
+        let want_refs: Vec<String> = want_items.iter().filter(|x| x.starts_with('r')).map(|x| x[1..].to_string()).collect();
+        if chained { want_items.retain(|x| x.starts_with('e')); }
         if let Some(k) = stop { want_items.truncate(k); }
+        if chained && stop.is_none() { let got: Vec<String> = res.refs.iter().map(|u| u.trim_start_matches("ldap://t").to_string()).collect();
+            if got != want_refs { oracle = Some(format!("behind EntriesOnly the final result must carry the reference URIs of all pages {:?} but carries {:?}", want_refs, got)); } }
         // C13: the search is over (read to the end, or finished early): no id reserved, no routing entry left
         if left != "//" { oracle = Some(format!("the paged search is finished but ids/routing entries {} are left behind", left)); }
         // C10: finished before the end, the result is the synthetic cancellation (88), never a page's own result
